@@ -55,7 +55,7 @@ func runC20Flood(w *core.WorkerCtx, k int) *core.CaseResult {
 	addr := srv.Listener.Addr().(*net.TCPAddr).String()
 	p := newPipeline(workers)
 	defer p.close()
-	if err := p.cm.ReloadFromRaw([]byte("global:\n  scrape_interval: 15s\n  scrape_timeout: 10s\nscrape_configs:\n- job_name: ja\n")); err != nil {
+	if err := p.cm.ReloadFromRaw([]byte("global:\n  scrape_interval: 300s\n  scrape_timeout: 120s\nscrape_configs:\n- job_name: ja\n")); err != nil {
 		res.Inconcl = "config: " + err.Error()
 		return res
 	}
@@ -194,7 +194,7 @@ func RunC03Flood(w *core.WorkerCtx, k int) *core.CaseResult {
 	addr := srv.Listener.Addr().(*net.TCPAddr).String()
 	p := newPipeline(workers)
 	defer p.close()
-	if err := p.cm.ReloadFromRaw([]byte("global:\n  scrape_interval: 15s\n  scrape_timeout: 10s\nscrape_configs:\n- job_name: ja\n")); err != nil {
+	if err := p.cm.ReloadFromRaw([]byte("global:\n  scrape_interval: 300s\n  scrape_timeout: 120s\nscrape_configs:\n- job_name: ja\n")); err != nil {
 		res.Inconcl = "config: " + err.Error()
 		return res
 	}
